@@ -80,6 +80,9 @@ func (v *Validator) ValidateModule() {
 
 	// Validate entry points
 	v.validateEntryPoints()
+
+	// Validate the resource interface of each entry point
+	v.validateResourceInterfaces()
 }
 
 // validateTypes checks all type definitions.
@@ -182,7 +185,6 @@ func (v *Validator) validateConstants() {
 
 // validateGlobalVariables checks all global variables.
 func (v *Validator) validateGlobalVariables() {
-	bindings := make(map[string]bool) // Track binding uniqueness (group:binding)
 	names := make(map[string]bool)
 
 	for i, gv := range v.module.GlobalVariables {
@@ -195,15 +197,6 @@ func (v *Validator) validateGlobalVariables() {
 
 		if !v.isValidTypeHandle(gv.Type) {
 			v.addError(fmt.Sprintf("global variable %d (%s): type %d does not exist", i, gv.Name, gv.Type))
-		}
-
-		if gv.Binding != nil {
-			key := fmt.Sprintf("%d:%d", gv.Binding.Group, gv.Binding.Binding)
-			if bindings[key] {
-				v.addError(fmt.Sprintf("global variable %q: duplicate binding @group(%d) @binding(%d)",
-					gv.Name, gv.Binding.Group, gv.Binding.Binding))
-			}
-			bindings[key] = true
 		}
 
 		if gv.Init != nil {
@@ -665,6 +658,40 @@ func (v *Validator) validateStatement(index int, stmt *Statement) {
 	case StmtRayQuery:
 		if !v.isValidExpressionHandle(kind.Query) {
 			v.addErrorInStatement(index, fmt.Sprintf("query expression %d does not exist", kind.Query))
+		}
+	}
+}
+
+// validateResourceInterfaces checks that the resources one entry point statically uses (directly or through the
+// functions it calls) have distinct (group, binding) pairs.  Different entry points may reuse a pair (WGSL, "Resource
+// interface").
+func (v *Validator) validateResourceInterfaces() {
+	m := v.module
+	for i := range m.EntryPoints {
+		ep := &m.EntryPoints[i]
+		usedGlobals := make([]bool, len(m.GlobalVariables))
+		usedFunctions := make([]bool, len(m.Functions))
+		var trace func(f *Function)
+		trace = func(f *Function) {
+			for _, expr := range f.Expressions {
+				if gv, ok := expr.Kind.(ExprGlobalVariable); ok && int(gv.Variable) < len(usedGlobals) {
+					usedGlobals[gv.Variable] = true
+				}
+			}
+			traceStatementsForRefs(f.Body, usedGlobals, usedFunctions, m, trace)
+		}
+		trace(&ep.Function)
+		seen := make(map[ResourceBinding]string)
+		for h, used := range usedGlobals {
+			gv := &m.GlobalVariables[h]
+			if !used || gv.Binding == nil {
+				continue
+			}
+			if other, dup := seen[*gv.Binding]; dup {
+				v.addError(fmt.Sprintf("entry point %q: global variables %q and %q: duplicate binding @group(%d) @binding(%d)",
+					ep.Name, other, gv.Name, gv.Binding.Group, gv.Binding.Binding))
+			}
+			seen[*gv.Binding] = gv.Name
 		}
 	}
 }
